@@ -37,6 +37,37 @@ pub mod rt {
     pub static PREDLOG: Mutex<Vec<(usize, String, String, bool)>> = Mutex::new(Vec::new());
     pub static CHECKLOG: Mutex<Vec<(usize, String, String, bool)>> = Mutex::new(Vec::new());
 
+    thread_local! {
+        /// how many gates may still pass on this thread (`i64::MAX` = all: gates are transparent)
+        pub static GATE_BUDGET: std::cell::Cell<i64> = std::cell::Cell::new(i64::MAX);
+    }
+    /// an await point inside the body of generated async functions: ready unless the harness holds it shut
+    pub struct Gate;
+    impl Future for Gate {
+        type Output = ();
+        fn poll(self: Pin<&mut Self>, _cx: &mut Context<'_>) -> Poll<()> {
+            GATE_BUDGET.with(|b| {
+                let v = b.get();
+                if v > 0 {
+                    if v != i64::MAX {
+                        b.set(v - 1);
+                    }
+                    Poll::Ready(())
+                } else {
+                    Poll::Pending
+                }
+            })
+        }
+    }
+    pub fn gate() -> Gate {
+        Gate
+    }
+    pub fn poll_once<F: Future + ?Sized>(f: &mut Pin<Box<F>>) -> Poll<F::Output> {
+        let w = noop_waker();
+        let mut cx = Context::from_waker(&w);
+        f.as_mut().poll(&mut cx)
+    }
+
     pub fn ran(_i: usize) {
         EXEC.fetch_add(1, Ordering::SeqCst);
         EXEC_TL.with(|e| e.set(e.get() + 1));
@@ -229,6 +260,12 @@ impl Workers {
         }
         Workers { tx }
     }
+    /// false = the job did not finish in time (it is left running on that worker)
+    pub fn run_timeout(&self, t: usize, job: Job, d: std::time::Duration) -> bool {
+        let (btx, brx) = mpsc::channel();
+        self.tx[t].send((job, btx)).unwrap();
+        brx.recv_timeout(d).is_ok()
+    }
     pub fn run(&self, t: usize, job: Job) -> String {
         let (btx, brx) = mpsc::channel();
         self.tx[t].send((job, btx)).unwrap();
@@ -291,7 +328,15 @@ pub fn stats_of(name: &str) -> String {
     }
 }
 
+pub struct PendingFut {
+    pub fi: usize,
+    pub key: String,
+    pub next: rt::Next,
+    pub fut: std::pin::Pin<Box<dyn std::future::Future<Output = String>>>,
+}
+
 pub struct Episode {
+    pub pending: std::collections::HashMap<u64, PendingFut>,
     pub fns: Vec<Spec>,
     pub w: Workers,
     pub vc: u64, // virtual clock, ms
@@ -306,7 +351,7 @@ pub fn now_s() -> u64 {
 
 impl Episode {
     pub fn new(fns: Vec<Spec>, fr_seed: u64) -> Episode {
-        Episode { fns, w: Workers::new(NTHREADS), vc: 0, start: Instant::now(), start_s: now_s(), fr: Rng::new(fr_seed) }
+        Episode { pending: std::collections::HashMap::new(), fns, w: Workers::new(NTHREADS), vc: 0, start: Instant::now(), start_s: now_s(), fr: Rng::new(fr_seed) }
     }
     /// executes one operation input (text) and returns "<output>||<dumps>"
     pub fn exec(&mut self, op: &str) -> String {
@@ -364,6 +409,79 @@ impl Episode {
                     cl.join(";"),
                     st
                 )
+            }
+            "begin" => {
+                // begin <id> <fn> <j> <n> <ok> <len> <ci> <io> <k>: poll the call until it suspends at its k-th await
+                let id: u64 = p[1].parse().unwrap();
+                let fi: usize = p[2].parse().unwrap();
+                let j: usize = p[3].parse().unwrap();
+                let next = rt::Next { n: p[4].parse().unwrap(), ok: p[5] == "1", len: p[6].parse().unwrap(), ci: p[7] == "1", io: p[8] == "1" };
+                let k: i64 = p[9].parse().unwrap();
+                *rt::NEXT.lock().unwrap() = next;
+                let (wv, wsz, wok) = corpus::WOULD[fi]();
+                rt::PREDLOG.lock().unwrap().clear();
+                rt::CHECKLOG.lock().unwrap().clear();
+                let e0 = rt::EXEC.load(std::sync::atomic::Ordering::SeqCst);
+                fastrand::seed(self.fr.next());
+                let (key, mut fut) = corpus::BEGINS[fi].expect("begin on a sync function")(j);
+                rt::GATE_BUDGET.with(|b| b.set(k - 1));
+                let r = rt::poll_once(&mut fut);
+                rt::GATE_BUDGET.with(|b| b.set(i64::MAX));
+                let e1 = rt::EXEC.load(std::sync::atomic::Ordering::SeqCst);
+                let cl: Vec<String> = rt::CHECKLOG.lock().unwrap().iter()
+                    .map(|(i, k, v, a)| format!("{}:{}:{}:{}", i, hex(k), hex(v), *a as u8)).collect();
+                let pl: Vec<String> = rt::PREDLOG.lock().unwrap().iter()
+                    .map(|(i, k, v, a)| format!("{}:{}:{}:{}", i, hex(k), hex(v), *a as u8)).collect();
+                let sp = self.fns.iter().find(|s| s.idx == fi).unwrap().clone();
+                match r {
+                    std::task::Poll::Ready(v) => format!(
+                        "would={},{},{} ret={} {} exec={} pred=[{}] check=[{}] stats={}",
+                        hex(&wv), wsz, wok as u8, hex(&key), hex(&v), e1 - e0, pl.join(";"), cl.join(";"), stats_of(&sp.name)),
+                    std::task::Poll::Pending => {
+                        self.pending.insert(id, PendingFut { fi, key: key.clone(), next, fut });
+                        // while the call is suspended another thread must be able to take every lock of this
+                        // cache: a never-matching conditional invalidation locks the queue and walks the store
+                        let name = sp.name.clone();
+                        let blocked = !self.w.run_timeout(1, Box::new(move || {
+                            cachelito_core::invalidate_with(&name, |_| false);
+                            String::new()
+                        }), std::time::Duration::from_secs(3));
+                        format!("would={},{},{} susp={} exec={} check=[{}] stats={} blocked={}",
+                            hex(&wv), wsz, wok as u8, hex(&key), e1 - e0, cl.join(";"), stats_of(&sp.name), blocked as u8)
+                    }
+                }
+            }
+            "resume" => {
+                let id: u64 = p[1].parse().unwrap();
+                match self.pending.remove(&id) {
+                    None => "nosuchcall".to_string(),
+                    Some(mut pf) => {
+                        *rt::NEXT.lock().unwrap() = pf.next;
+                        rt::PREDLOG.lock().unwrap().clear();
+                        rt::CHECKLOG.lock().unwrap().clear();
+                        let e0 = rt::EXEC.load(std::sync::atomic::Ordering::SeqCst);
+                        fastrand::seed(self.fr.next());
+                        let mut out = None;
+                        for _ in 0..64 {
+                            if let std::task::Poll::Ready(v) = rt::poll_once(&mut pf.fut) {
+                                out = Some(v);
+                                break;
+                            }
+                        }
+                        let e1 = rt::EXEC.load(std::sync::atomic::Ordering::SeqCst);
+                        let pl: Vec<String> = rt::PREDLOG.lock().unwrap().iter()
+                            .map(|(i, k, v, a)| format!("{}:{}:{}:{}", i, hex(k), hex(v), *a as u8)).collect();
+                        let sp = self.fns.iter().find(|s| s.idx == pf.fi).unwrap();
+                        format!("ret={} {} exec={} pred=[{}] check=[] stats={}", hex(&pf.key),
+                            hex(&out.unwrap_or_else(|| "NEVER-READY".to_string())), e1 - e0, pl.join(";"), stats_of(&sp.name))
+                    }
+                }
+            }
+            "drop" => {
+                let id: u64 = p[1].parse().unwrap();
+                // dropping a call that already returned at `begin` is a no-op
+                drop(self.pending.remove(&id));
+                "unit".to_string()
             }
             "tick" => {
                 let ms: u64 = p[1].parse().unwrap();
@@ -450,8 +568,44 @@ pub fn gen_ops(rng: &mut Rng, fns: &[Spec], n: usize, det: bool) -> Vec<String> 
     // keys of a function: we do not know the key strings here; conditional invalidations use the
     // hex keys observed so far (filled in by the runner) — encoded as `?<fn>:<j>` placeholders
     let mut vc = 0u64;
+    let mut open: Vec<u64> = Vec::new();
+    let mut next_id = 0u64;
+    let asyncs: Vec<&Spec> = fns.iter().filter(|s| s.is_async).collect();
     for _ in 0..n {
         let c = rng.below(100);
+        // suspended / dropped async calls (C20): begin one, or finish / drop an open one
+        if !asyncs.is_empty() && rng.chance(1, 6) {
+            if !open.is_empty() && rng.chance(1, 2) {
+                let i = rng.below(open.len() as u64) as usize;
+                let id = open.remove(i);
+                ops.push(if rng.chance(1, 2) { format!("resume {id}") } else { format!("drop {id}") });
+            } else if open.len() < 3 {
+                let sp = *rng.pick(&asyncs);
+                let j = rng.below(nkeys(sp) as u64);
+                counter += 1;
+                let (nval, ok) = if det {
+                    let key = corpus::KEYS[sp.idx](j as usize);
+                    let mut h: u64 = sp.idx as u64 * 1_000_003 + 17;
+                    for b in key.bytes() {
+                        h = h.wrapping_mul(31).wrapping_add(b as u64);
+                    }
+                    let h = h % 997;
+                    (h, h % 4 != 0)
+                } else {
+                    (counter, !rng.chance(3, 10))
+                };
+                let len = match sp.max_mem {
+                    Some(m) => 4 + ((nval * 29) % (m.saturating_sub(24) as u64 / 2 + 8)) as usize,
+                    None => 4 + (nval % 5) as usize,
+                };
+                let (ci, io) = if det { (true, false) } else { (!rng.chance(3, 10), rng.chance(3, 10)) };
+                let k = 1 + rng.below(corpus::AWAITS[sp.idx] as u64);
+                next_id += 1;
+                open.push(next_id);
+                ops.push(format!("begin {} {} {} {} {} {} {} {} {}", next_id, sp.idx, j, nval, ok as u8, len, ci as u8, io as u8, k));
+            }
+            continue;
+        }
         if c < 62 {
             let sp = rng.pick(fns);
             let t = if sp.thread { rng.below(NTHREADS as u64) } else if rng.chance(1, 4) { rng.below(NTHREADS as u64) } else { 0 };
@@ -559,7 +713,7 @@ pub fn run_ops(fns: Vec<Spec>, ops: Vec<String>, fr_seed: u64, det: bool) {
     let idxs: Vec<String> = fns.iter().map(|s| s.idx.to_string()).collect();
     // `det` = the scripted body is a deterministic function of (function, arguments) in this episode
     writeln!(out, "E|{}|{}|det={}", idxs.join(","), fr_seed, det as u8).unwrap();
-    let mut ep = Episode { fns: fns.clone(), w: Workers::new(NTHREADS), vc: 0, start: Instant::now(), start_s: now_s(), fr: Rng::new(fr_seed) };
+    let mut ep = Episode::new(fns.clone(), fr_seed);
     let mut last = dump_all(&ep.w, &ep.fns);
     for op in ops {
         let op = resolve(&op, &fns, &last);
